@@ -229,6 +229,9 @@ func c19Case(c *fx.Ctx, src ev.E, d c19Dest, sh c19Shape, path string) {
 		return
 	}
 	c.Distinct("nontrivial", sig+src.Key())
+	if c.Index()%211 == 0 {
+		c.Sample(fmt.Sprintf("%s into %s (%s, via %s) stored exactly %s", src.Key(), d.name, sh.name, path, gotNode))
+	}
 }
 
 func init() {
